@@ -6,11 +6,15 @@
   satisfies the heap invariant, every handle, every operand value and every history; nothing is bounded.
 
   Scope: buffers without element callbacks (raw data and plain-old-data element types); the operations of
-  `Heap.Op`: append, insert, set, slice, cut, buffer-set, clone, drop, detach, reduce, reserve.  The operations
-  format-print and slice-write are stated (`*_statement`) but not proved; see the comments there.
+  `Heap.Op`: append, insert, set, slice, cut, buffer-set, clone, drop, detach, reduce, reserve; format-print
+  (`printf`) and slice-write (`slice_write`); the C++ wrappers `mpt::array` (`cxx_value_semantics`) and
+  `unique_array<T>` / `typed_array<T>` with plain element types (`cxx_typed`).
 -/
 import MptModel.Lemmas.HeapHist
 import MptModel.Lemmas.HeapXX
+import MptModel.Lemmas.HeapPrintf
+import MptModel.Lemmas.HeapSlice
+import MptModel.Lemmas.HeapTyped
 namespace Mpt.C04
 open Mpt Mpt.Heap
 
@@ -133,30 +137,32 @@ example : ∃ s', run { hs := [none, none], wins := [none, none] }
     s'.abs 0 = [0x61, 0x62, 0x63, 0x64, 0x65] ∧ s'.abs 1 = [0x61, 0x62, 0x63] := by
   refine ⟨_, rfl, ?_, ?_⟩ <;> decide
 
-/-! ### operations not covered by a theorem (correspondence-checked only)
+/-! ### `mpt_printf` and `mpt_slice_write`
 
-  The full statements are kept as definitions.  What is missing: the proofs.  `arrayPrintf` runs two
-  `arraySlice` calls with a length computed from the free space, `sliceWrite` has three paths (in place,
-  move to front, fresh buffer) on a window of the buffer.  Both are exercised against the real code by
-  the harness (streams 1-3 of vlib/props/c04.py) and the same `Sem` shape is what the harness checks. -/
+  `arrayPrintf` runs one or two `arraySlice` calls with lengths computed from the free space, `vsnprintf` into the
+  region and an adjustment of the used size; `sliceWrite` has three paths (in place, move to front, fresh buffer) on a
+  window of the buffer. -/
 
-/-- format-print: the text (no zero byte) is appended, lengths exact -/
-def printf_statement : Prop :=
-  ∀ (s : State) (h : Nat) (ct : Traits) (text : List Byte), Inv s → h < s.hs.length → PlainT (some ct) → ct.size = 1 →
-    (∀ b ∈ text, b ≠ 0) →
-    Sem s h (fun v v' => v' = Vec.append v text) (arrayPrintf s h ct text)
+/-- format-print (`"%s"`, character buffers): the text is appended, lengths exact; every other handle keeps its
+    value; a buffer of another type is refused without a change; nothing faults.  (The second slice can not fail
+    once the first one succeeded: the handle then owns a private buffer.) -/
+theorem printf (s : State) (h : Nat) (ct : Traits) (text : List Byte) (inv : Inv s) (hlt : h < s.hs.length)
+    (pt : PlainT (some ct)) (c1 : ct.size = 1) :
+    Sem s h (fun v v' => v' = Vec.append v text) (arrayPrintf s h ct text) :=
+  printf_sem inv hlt ct pt c1 text
 
-/-- slice-write: whole blocks are appended to the window of the slice handle; every array handle keeps its
-    value (the window is `s.wins[h]` on the buffer of `h`) -/
-def slice_write_statement : Prop :=
-  ∀ (s : State) (h nblk esz : Nat) (bytes : List Byte) (w : Win), Inv s → h < s.hs.length → esz ≠ 0 →
-    bytes.length = nblk * esz → s.win h = some w → w.off + w.len ≤ (s.abs h).length →
+/-- slice-write: whole blocks are appended to the window of the slice handle (`k ≤ nblk` of them); every array
+    handle keeps its value (the window is `s.wins[h]` on the buffer of `h`); a typed buffer is refused without a
+    change; nothing faults -/
+theorem slice_write (s : State) (h nblk esz : Nat) (bytes : List Byte) (w : Win) (inv : Inv s) (hlt : h < s.hs.length)
+    (bl : bytes.length = nblk * esz) (hw : s.win h = some w) (wfit : w.off + w.len ≤ (s.abs h).length) :
     match sliceWrite s h nblk esz bytes with
     | .fault _ => False
     | .fail s' _ => Inv s' ∧ ∀ h', h' ≠ h → s'.abs h' = s.abs h'
     | .ok s' k => Inv s' ∧ k ≤ nblk ∧ (∀ h', h' ≠ h → s'.abs h' = s.abs h') ∧
         ∃ w', s'.win h = some w' ∧
-          Vec.sub (s'.abs h) w'.off w'.len = Vec.sub (s.abs h) w.off w.len ++ Vec.blocks bytes k esz
+          Vec.sub (s'.abs h) w'.off w'.len = Vec.sub (s.abs h) w.off w.len ++ Vec.blocks bytes k esz :=
+  sliceWrite_sem s h nblk esz bytes w inv hlt bl hw wfit
 
 /-! ### C++ layer (mpt++/array.cpp, templates of mptcore/array.h; model `Impl/HeapXX.lean`) -/
 
@@ -208,18 +214,21 @@ example :
        | _ => ([], []))
      | _ => ([], [])) = ([0x61, 0x62, 0x63], [0x58]) := by decide
 
-/-- typed wrappers (`unique_array<T>` / `typed_array<T>` with plain element types): stated, not proved; checked
-    against the real templates by the C++ part of the correspondence (kinds t1 t12 u1 u12).  `k.t` is the
-    element type of every buffer of the handle. -/
-def cxx_typed_statement : Prop :=
-  ∀ (s : State) (h : Nat) (k : XKind) (pos : Int) (val : List Byte) (n : Nat), Inv s → h < s.hs.length →
-    PlainT (some k.t) → val.length = k.t.size →
-    (∀ b x, s.handle h = some b → s.buf? b = some x → x.traits = some k.t) →
+/-- typed wrappers (`unique_array<T>` / `typed_array<T>` with plain element types; `k.t` is the element type of the
+    buffer of the handle): `insert(pos, val)` inserts one element (negative positions count from the end, a position
+    behind the end zero-fills the gap), `resize(n)` leaves exactly `n` elements (new ones zero), `reserve(n)` keeps
+    the content (an immutable private buffer is replaced by one that holds at least `n` elements of it), `detach()`
+    keeps it; other handles never change, refusals change nothing, nothing faults -/
+theorem cxx_typed (s : State) (h : Nat) (k : XKind) (pos : Int) (val : List Byte) (n : Nat) (inv : Inv s) (hlt : h < s.hs.length)
+    (pt : PlainT (some k.t)) (vl : val.length = k.t.size)
+    (hk : ∀ b x, s.handle h = some b → s.buf? b = some x → x.traits = some k.t) :
     Sem s h (fun v v' => ∃ p need, insertPos (v.length / k.t.size) pos = some (p, need) ∧
         v' = Vec.insert v (p * k.t.size) val) (uInsert s h k pos (some val) none) ∧
     Sem s h (fun v v' => v' = if n * k.t.size ≤ v.length then v.take (n * k.t.size) else Vec.padTo v (n * k.t.size))
       (uResize s h k n) ∧
-    Sem s h (fun v v' => v' = v) (uReserve s h k n) ∧
-    Sem s h (fun v v' => v' = v) (uDetach s h k)
+    Sem s h (fun v v' => ∃ m, n * k.t.size ≤ m ∧ v' = v.take m) (uReserve s h k n) ∧
+    Sem s h (fun v v' => v' = v) (uDetach s h k) :=
+  ⟨uInsert_sem inv hlt k pt hk pos val vl, uResize_sem inv hlt k pt hk n, uReserve_sem inv hlt k pt hk n,
+    uDetach_sem inv hlt k pt hk⟩
 
 end Mpt.C04
